@@ -324,6 +324,7 @@ CHECKS = {
         "runs": [
             {"entry": CC + ".HarnessC19InverseQuick", "pkgs": LIBS, "tiers": ["quick"], "must_reach": ["c19-inverse-end"]},
             {"entry": CC + ".HarnessC19GoIdentQuick", "pkgs": LIBS + ["go/token"], "tiers": ["quick"], "must_reach": ["c19-goident-end"]},
+            {"entry": CC + ".HarnessC19GoIdent3Small", "pkgs": LIBS + ["go/token"], "tiers": ["quick"], "must_reach": ["c19-goident-end"]},
             {"entry": CC + ".HarnessC19InverseThorough", "pkgs": LIBS, "tiers": ["thorough"], "must_reach": ["c19-inverse-end"]},
             {"entry": CC + ".HarnessC19GoIdentThorough", "pkgs": LIBS + ["go/token"], "tiers": ["thorough"], "must_reach": ["c19-goident-end"]},
         ],
